@@ -377,3 +377,27 @@ package j5schema
 //@   ensures member: result != nil ==> exists i int :: 0 <= i && i < len(s.Options) && s.Options[i] == result
 //@   ensures none: result == nil ==> forall i int {s.Options[i]} :: 0 <= i && i < len(s.Options) ==> s.Options[i].number != num
 //@   loop 0 invariant forall i int {s.Options[i]} :: 0 <= i && i < $iter ==> s.Options[i].number != num
+
+// ---- enum schemas read from descriptors (C18 self-consistency, C04 read-back) ----------------------------
+// The first value must end in UNSPECIFIED; what precedes the suffix is the prefix, which is trimmed
+// from every name. Every kept option is non-nil and carries the number of the descriptor value at the
+// same position (after the dropped default value, if the enum is marked no-default).
+//@ spec func trimmed(short string, full string, prefix string) bool = hasPrefix(full, prefix) ? prefix + short == full : short == full
+//@ func (*Package).buildEnum
+//@   ensures count: result1 == nil ==> len(result0.Options) == evLen(evs(enumDescriptor)) || len(result0.Options) == evLen(evs(enumDescriptor)) - 1
+//@   ensures options: result1 == nil ==> forall i int {result0.Options[i]} :: 0 <= i && i < len(result0.Options) ==> result0.Options[i] != nil
+//@   |   && result0.Options[i].number == evNumber(evAt(evs(enumDescriptor), i + evLen(evs(enumDescriptor)) - len(result0.Options)))
+//@   ensures prefix: result1 == nil ==> result0.NamePrefix + "UNSPECIFIED" == descName(evAt(evs(enumDescriptor), 0))
+//@   ensures rejected: !hasSuffix(descName(evAt(evs(enumDescriptor), 0)), "UNSPECIFIED") ==> result1 != nil
+//@   ensures names: result1 == nil ==> forall i int {result0.Options[i]} :: 0 <= i && i < len(result0.Options) ==>
+//@   |   trimmed(result0.Options[i].name, descName(evAt(evs(enumDescriptor), i + evLen(evs(enumDescriptor)) - len(result0.Options))), result0.NamePrefix)
+//@   loop 0 invariant ii <= evLen(evs(enumDescriptor)) && sourceValues == evs(enumDescriptor)
+//@   loop 0 invariant forall i int {values[i]} :: 0 <= i && i < len(values) ==> reach(values[i])
+//@   loop 0 invariant distinct: forall i int, j int {values[i], values[j]} :: 0 <= i && i < j && j < len(values) ==> values[i] != values[j]
+//@   loop 1 invariant distinct: forall i int, j int {values[i], values[j]} :: 0 <= i && i < j && j < len(values) ==> values[i] != values[j]
+//@   loop 0 invariant forall i int {values[i]} :: 0 <= i && i < len(values) ==> values[i].name == descName(evAt(evs(enumDescriptor), i))
+//@   loop 1 invariant forall i int {values[i]} :: 0 <= i && i < $iter ==> trimmed(values[i].name, descName(evAt(evs(enumDescriptor), i)), trimPrefix)
+//@   loop 1 invariant forall i int {values[i]} :: $iter <= i && i < len(values) ==> values[i].name == descName(evAt(evs(enumDescriptor), i))
+//@   loop 1 invariant trimPrefix + "UNSPECIFIED" == descName(evAt(evs(enumDescriptor), 0))
+//@   loop 0 invariant forall i int {values[i]} :: 0 <= i && i < len(values) ==> values[i].number == evNumber(evAt(evs(enumDescriptor), i))
+//@   loop 1 invariant len(values) == evLen(evs(enumDescriptor)) && forall i int {values[i]} :: 0 <= i && i < len(values) ==> values[i].number == evNumber(evAt(evs(enumDescriptor), i))
